@@ -85,6 +85,9 @@ def corpus():
         _arr(2, [_call(0, 'tA', [['see'], ['hdr', 'X-A', 'tAh'], ['see']]),
                  _call(1, 'tC', [['see'], ['status', 201], ['see']])], start=0, switches=[[500, 1]]),
         _arr(2, [_call(0, 'tA', [['see'], ['see']]), dict(construct=True)], start=0, switches=[[600, 1]]),
+        # a front application hands a copy of its request to a backend; the environ carries the read-only flag
+        _arr(2, [_call(0, 'tA', [['see'], ['call_copy', 1, [['see'], ['hdr', 'X-B', 'tAcch']]], ['see']], readonly=True)]),
+        _arr(2, [_call(1, 'tA', [['see'], ['call_copy', 0, [['see']]], ['see'], ['copy'], ['see']])], default=True),
         _arr(3, [_call(1, 'tA', [['call', _call(2, 'tB', [['call', _call(0, 'tD', [['see']])], ['see']])], ['see'],
                                  ['form_see']], method='POST', form='f=tAf', cookie='c=tAc')], default=True),
     ]
@@ -171,6 +174,11 @@ def _gen_script(rng, tok, napps, depth, counter, busy=()):
             j = rng.choice(free)
             script.append(['call', _call(j, sub, _gen_script(rng, sub, napps, depth + 1, counter, tuple(busy) + (j,)))])
             script.append(['see'])
+        elif r < 0.80 and depth < 2 and free:
+            # a copy of this request handed to another application (nested call on the copy's environ)
+            j = rng.choice(free)
+            script.append(['call_copy', j, [['see']] * rng.randrange(0, 2) + [['hdr', 'X-B', tok + 'cch']] * rng.randrange(0, 2)])
+            script.append(['see'])
         elif r < 0.86:
             script.append(['copy'])
             script.append(['see'])
@@ -205,6 +213,8 @@ def _gen_arr(rng):
             kw = dict(method='POST', form='f=%sf' % tok)
         if rng.random() < 0.3:
             kw['cookie'] = 'c=%sc' % tok
+        if rng.random() < 0.3:
+            kw['readonly'] = True         # the (legal) 'ombott.request.readonly' flag in the environ
         j = rng.randrange(napps)
         calls.append(_call(j, tok, _gen_script(rng, tok, napps, 0, [0], (j,)), **kw))
     switches = []
@@ -356,6 +366,8 @@ def nontrivial(case, obs):
         for a in c['script']:
             if a[0] == 'call':
                 walk(a[1])
+            elif a[0] == 'call_copy':
+                apps.add(a[1])
             elif a[0] == 'new_app':
                 apps.add('new')
     walk(case['calls'][0])
@@ -381,8 +393,10 @@ def classify(case, obs):
             if a[0] == 'call':
                 kinds.add('nested')
                 walk(a[1], depth + 1)
-            elif a[0] in ('copy', 'new_app', 'abort', 'boom', 'gen'):
+            elif a[0] in ('copy', 'new_app', 'abort', 'boom', 'gen', 'call_copy'):
                 kinds.add(a[0])
+        if c.get('readonly'):
+            kinds.add('readonly')
     for c in case['calls']:
         walk(c, 0)
     return 'arr/threads=%d/preempt=%d/%s/%s' % (len(case['calls']), len(obs.get('switches') or []),
